@@ -214,7 +214,7 @@ package graphql
 //@ func addExtensionResults
 //@   props C17 C09:safety
 //@   nosafety
-//@   requires p != nil && result != nil
+//@   requires p != nil
 //@   opt invoke.HasResult=maypanic
 //@   opt invoke.GetResult=maypanic
 //@   nopanic
